@@ -76,11 +76,14 @@ let run (path : String.t) =
       if not (obs_c01_ok evs) then (add "c01"; add "c08");
       if not (obs_c16_ok evs) then add "c16";
       if not (obs_c09_bounded_ok evs) then add "c09";
-      if not (obs_repoll_ok evs) then (add "c09"; add "c01");
+      (* a peer failed or left somewhere in this history (a sink answered Err, a publisher stream yielded an
+         error or ended): what is left undone afterwards is also harm done to the others (C08) *)
+      let had_failures = List.exists (function ESinkReady (_, RErr) | ESinkFlush (_, RErr) | ESinkSend (_, _, false)
+                                             | EStream (_, SErr) | EStream (_, SEnd) -> true | _ -> false) evs in
+      if not (obs_repoll_ok evs) then (add "c09"; add "c01"; if had_failures then add "c08");
       let drained = (fin = "quiesce" || fin = "close") && !special = None in
       if drained then begin
         (* wake-driven final phase: sinks ready, publishers idle or finished *)
-        let had_failures = List.exists (function ESinkReady (_, RErr) | ESinkFlush (_, RErr) | ESinkSend (_, _, false) -> true | _ -> false) evs in
         if not (obs_delivered_all evs && obs_all_adopted evs) then (add "c01"; add "c09"; if had_failures then add "c08");
         if accepted && not (delivered_all st) then (add "c01"; add "c09"; if had_failures then add "c08");
         if fin = "close" && not (completed evs) then (add "c16"; add "c09");
